@@ -240,16 +240,17 @@ func indexOf(s, sub string) int {
 
 func init() {
 	fw.Register(&fw.Prop{
-		ID:     "C11",
-		Race:   true,
-		NCases: c11Dims,
-		Run:    c11Case,
-		Decide: raceDecide,
+		ID:      "C11",
+		Race:    true,
+		HangCPU: 600, // batches of up to 16 goroutines under the race detector
+		NCases:  c11Dims,
+		Run:     c11Case,
+		Decide:  raceDecide,
 		Floors: func(tier string) map[string]int64 {
 			return map[string]int64{"concurrent_programs": 15000, "batches_with_16_goroutines": 20, "batches_with_2_goroutines": 20}
 		},
-		MaxShards: 4,
-		HangWall:  120,
+		MaxShards:   4,
+		HangWall:    120,
 		Rule:        "batch = 2/4/8/16 goroutines, each with its own VM (no shared values; even goroutines seeded, odd unseeded; three error languages; random flag sets) running 12 programs drawn from 16 shapes that touch everything shared at package level (unseeded dice → fallback generator, parse failures → error formatter, native functions and bound methods, dir(), templates, default-side expression cache, array random methods, JSON round trips, st). Worker built with -race; yield hooks in Parse/Roll widen interleavings. Every seeded result (Ret, error text, detail) must equal the isolated baseline computed beforehand; unseeded VMs must not crash and their syntax errors must be in their own language; every race report touching dicescript is a violation. distinct = batch",
 		Assumptions: []string{"the race detector sees only the races of the schedules produced (batches are repeated; thorough runs 5000 batches)"},
 	})
